@@ -214,7 +214,9 @@ fn wrong_value(ch: &mut Choices, s: &Schema, ty: &MType, depth: usize) -> Option
         }
         MType::List(t) => {
             let (w, l) = wrong_value(ch, s, t, depth + 1)?;
-            if w == MValue::Null || ch.chance(1, 2) {
+            // (a list literal is never coerced as a "single value": `[null]` for `[[T!]]` reads as a list holding
+            // one null inner list, which is fine - so a list-valued wrong element must stay wrapped)
+            if w == MValue::Null || matches!(w, MValue::List(_)) || ch.chance(1, 2) {
                 Some((MValue::List(vec![w]), if depth > 0 { "nested-list-element" } else { "list-element" }))
             } else {
                 // single value: still wrong after list coercion
@@ -943,6 +945,29 @@ pub fn inject(ch: &mut Choices, doc: &mut MOpDoc, s: &Schema) -> Option<Fault> {
         }
         16 => {
             // fragment cycle
+            // one time in four, inside an operation of a random kind: its selections move into a fresh fragment on
+            // the root type, which spreads itself under an inline fragment with that type condition (cycles must be
+            // found in queries, mutations and subscriptions alike - a subscription is also walked by the
+            // single-root-field counter)
+            if ch.chance(1, 4) {
+                let ops: Vec<usize> = doc.iter().enumerate().filter(|(_, d)| matches!(d, MExecDef::Op(_))).map(|(i, _)| i).collect();
+                if !ops.is_empty() && !doc.iter().any(|d| matches!(d, MExecDef::Frag(f) if f.name == "CycleRoot")) {
+                    // prefer a subscription when there is one
+                    let subs: Vec<usize> = ops.iter().copied().filter(|&i| matches!(&doc[i], MExecDef::Op(o) if o.op == OpType::Subscription)).collect();
+                    let i = if !subs.is_empty() && ch.chance(2, 3) { *ch.pick(&subs) } else { *ch.pick(&ops) };
+                    let (root, moved) = match &mut doc[i] {
+                        MExecDef::Op(o) => match s.root(o.op) {
+                            Some(r) => (r, std::mem::replace(&mut o.sel, vec![MSelection::Spread { name: "CycleRoot".into(), directives: vec![] }])),
+                            None => return None,
+                        },
+                        _ => unreachable!(),
+                    };
+                    let mut sel = moved;
+                    sel.push(MSelection::Inline { on: Some(root.clone()), directives: vec![], sel: vec![MSelection::Spread { name: "CycleRoot".into(), directives: vec![] }] });
+                    doc.push(MExecDef::Frag(MFragment { name: "CycleRoot".into(), on: root, directives: vec![], sel }));
+                    return Some(Fault { label: "fragment-cycle", class: "used-fragment/operation-root".into(), detail: "operation body moved into a fragment that spreads itself under a typed inline fragment" });
+                }
+            }
             let name = ensure_fragment(ch, doc, s);
             let depths = fragment_depths(doc);
             let used = depths.contains_key(&name);
@@ -1203,7 +1228,8 @@ fn cli_case(case: &mut Case, base: &std::path::Path) -> CaseResult {
         }
         panic!("harness: injected fault {} ({}) not confirmed by the reference validator (got {labels:?})\n{}", fault.label, fault.detail, canon_op(&doc));
     }
-    let split = crate::split::split_into_files(&mut case.ch, &doc);
+    // (operations stay in one file: several injected rules speak about one document)
+    let split = crate::split::split_into_files_opts(&mut case.ch, &doc, &[], false);
     let proj = Project::new(base);
     let dir = proj.dir.clone();
     proj.write("graphql.config.yaml", "schema: \"schema.graphql\"\ndocuments: \"ops/**/*.graphql\"\n");
